@@ -81,8 +81,11 @@ def replay_violation(pid, mod, obname, v, work, idx):
         import traceback
         return {'status': 'unavailable', 'detail': 'replay builder failed: %r %s' % (e, traceback.format_exc()[-800:]),
                 'traces': 0}
-    os.makedirs(os.path.join(VERIF, 'evidence', 'replays'), exist_ok=True)
-    path = os.path.join(VERIF, 'evidence', 'replays', '%s-%s-%d.json' % (pid, obname, idx))
+    # runs on a patched copy of the repository (VERIF_REPO) never write into /verif/evidence
+    evbase = os.path.join(VERIF, 'evidence') if os.path.abspath(os.environ.get('VERIF_REPO', '/repo')) == '/repo' \
+        else os.path.join(VERIF, '.work', 'evidence-copy')
+    os.makedirs(os.path.join(evbase, 'replays'), exist_ok=True)
+    path = os.path.join(evbase, 'replays', '%s-%s-%d.json' % (pid, obname, idx))
     with open(path, 'w') as f:
         json.dump({'property': pid, 'obligation': obname, 'claim': v['claim'], 'site': v['site'], 'model': v['model'],
                    'scenario': res.get('scenario'), 'real_output': res.get('output'), 'oracle': res.get('oracle'),
